@@ -38,7 +38,10 @@ op = os.path.join(V, 'seeded', 'own', 'results.jsonl')
 if os.path.exists(op):
     last = {}
     for l in open(op):
-        d = json.loads(l); last[d['mutant']] = d
+        d = json.loads(l)
+        if d['mutant'] in last:   # later runs override earlier verdicts property by property
+            v = dict(last[d['mutant']]['verdicts']); v.update(d['verdicts']); d['verdicts'] = v
+        last[d['mutant']] = d
     exp = json.load(open(os.path.join(V, 'seeded', 'own', 'expected.json')))
     r2 = ['| change | unedited suite passes with it | checks run → outcome |', '|---|---|---|']
     for name in sorted(last):
